@@ -455,6 +455,69 @@ def run_abstract(via_dbc: bool, member: int, sub_overrides: bool) -> Tuple[bool,
     return ok, True
 
 
+COLOUR_FOREIGN = ["sync_pass_through_over_async_def", "async_to_sync_over_async_def", "sync_to_async_over_def",
+                  "async_pass_through_over_async_def"]
+
+
+def run_colour(foreign_i: int, deco_i: int, x: int) -> Tuple[bool, bool]:
+    """A contract decorator on top of a foreign functools.wraps decorator that changes (or hides) the colour of what it wraps:
+    the contracted callable is a coroutine function exactly if the callable it was applied to is one, and a call gives the
+    same thing (a value, or a coroutine resulting in that value) as the bare twin."""
+    import asyncio
+    foreign_i, deco_i = conc(foreign_i, 0, len(COLOUR_FOREIGN) - 1), conc(deco_i, 0, 1)
+    kind = COLOUR_FOREIGN[foreign_i]
+    log = []  # type: List[Any]
+
+    def make() -> Any:
+        if kind == "sync_to_async_over_def":
+            def target(v: Any) -> Any:
+                log.append("body")
+                return ("res", v)
+        else:
+            async def target(v: Any) -> Any:  # type: ignore
+                log.append("body")
+                return ("res", v)
+        if kind == "sync_pass_through_over_async_def":
+            @functools.wraps(target)
+            def foreign(*a: Any, **k: Any) -> Any:
+                return target(*a, **k)
+        elif kind == "async_to_sync_over_async_def":
+            @functools.wraps(target)
+            def foreign(*a: Any, **k: Any) -> Any:  # type: ignore
+                return asyncio.run(target(*a, **k))
+        elif kind == "sync_to_async_over_def":
+            @functools.wraps(target)
+            async def foreign(*a: Any, **k: Any) -> Any:  # type: ignore
+                return target(*a, **k)
+        else:
+            @functools.wraps(target)
+            async def foreign(*a: Any, **k: Any) -> Any:  # type: ignore
+                return await target(*a, **k)
+        return foreign
+
+    def use(fn: Any) -> Tuple[Any, ...]:
+        del log[:]
+        r = fn(x)
+        during_call = list(log)
+        is_coro = inspect.iscoroutine(r)
+        if is_coro:
+            r = drive(r)
+        return (inspect.iscoroutinefunction(fn), is_coro, tuple(during_call), r)
+    with untraced():
+        bare = make()
+        twin = make()
+        if deco_i == 0:
+            contracted = icontract.require(lambda v: True)(twin)
+        else:
+            contracted = icontract.ensure(lambda v: True)(twin)  # (does not look at the result)
+    x = conc(x, -3, 3)
+    with untraced():  # (a real event loop is started by one of the foreign decorators)
+        want = fresh(use, bare)
+        got = fresh(use, contracted)
+    note(("colour", kind, deco_i, want[0], got[0]), True)
+    return want == got, True
+
+
 SALL = ["flavour", "d0", "d1", "d2", "d3", "d4", "d5", "bo", "t0", "t1", "t2", "t3", "t4", "t5", "x", "fd"]
 
 
@@ -480,6 +543,12 @@ def harnesses(tier: str) -> List[H]:
                                 "decorators copy __dict__ (default) or not (updated=()); truth of every contract and 3 "
                                 "body outcomes symbolic; metadata, signature, __wrapped__ chain and single-checker checked "
                                 "once per sequence".format(fname, depth, SYM, SYM[d0]), family_size=2 * 5 ** (depth - 1)))
+    CL = ["foreign_i", "deco_i", "x"]
+    out.append(H("colour_changing_foreign_decorator", bind(run_colour, (), CL, {}, CL),
+                 [I("foreign_i", 0, len(COLOUR_FOREIGN) - 1), I("deco_i", 0, 1), I("x", -3, 3)], tiers=(tier,), timeout=200,
+                 family="require / ensure on top of a foreign functools.wraps decorator from {}; compared with the twin without the "
+                        "contract: coroutine-ness, what a call returns, when the body runs".format(COLOUR_FOREIGN),
+                 family_size=2 * len(COLOUR_FOREIGN)))
     AP = ["via_dbc", "member", "sub_overrides"]
     out.append(H("abstract_members", bind(run_abstract, (), AP, {}, AP), [B("via_dbc"), I("member", 0, 1), B("sub_overrides")],
                  tiers=(tier,), timeout=200,
